@@ -507,4 +507,51 @@ batches without archiving their checkpoints (known finding C13-archive-not-expor
 the harness's `reimport` lines. -/
 def reimport (s : St) : St := { s with usage := fun _ => none, archive := [] }
 
+/-! ### the contract registry of a remote chain (x/skyway/keeper/cosmos-originated.go)
+
+A transfer is escrowed in a *denom* but recorded (pool key, batch key) under the *contract* the denom is bound to at
+that moment; the refund (`RemoveFromOutgoingPoolAndRefund`) and the burn (`OutgoingTxBatchExecuted`) find the denom
+again through the reverse entry of that contract.  Denoms and contracts are naturals. -/
+
+/-- `DenomToERC20` / `ERC20ToDenom` entries of one remote chain: `erc d` is the contract new transfers of denom `d`
+    are recorded under, `den c` the denom a transfer or batch recorded under contract `c` is refunded / burned in -/
+structure Registry where
+  erc : Nat → Option Nat
+  den : Nat → Option Nat
+
+def Registry.init : Registry := { erc := fun _ => none, den := fun _ => none }
+
+/-- `setDenomToERC20`: both entries are written, nothing is ever deleted (the reverse entry of the contract the
+    denom was bound to before stays) -/
+def Registry.set (r : Registry) (d c : Nat) : Registry :=
+  { erc := updO r.erc d (some c), den := updO r.den c (some d) }
+
+/-- `MsgSetERC20ToTokenDenom`, also reached through the wasm binding `set_erc20_to_denom`: only for the denom's
+    admin (`isAdmin` = the sender is the admin the token factory names), and only a contract without reverse entry -/
+def Registry.bindAdmin (r : Registry) (isAdmin : Bool) (d c : Nat) : Registry × Res :=
+  if !isAdmin then (r, .rejected) else
+  if (r.den c).isSome then (r, .rejected) else
+  (r.set d c, .ok)
+
+/-- `SetERC20ToDenomProposal` / `MsgSetERC20MappingProposal`: unconditional -/
+def Registry.bindGov (r : Registry) (d c : Nat) : Registry × Res := (r.set d c, .ok)
+
+inductive RegOp where
+  | admin (isAdmin : Bool) (d c : Nat)
+  | gov (d c : Nat)
+deriving Repr, DecidableEq
+
+def Registry.apply (r : Registry) : RegOp → Registry
+  | .admin a d c => (r.bindAdmin a d c).1
+  | .gov d c => (r.bindGov d c).1
+
+def Registry.run (r : Registry) (ops : List RegOp) : Registry := ops.foldl Registry.apply r
+
+/-- the contract `AddToOutgoingPool` records a transfer of denom `d` under (`GetERC20OfDenom`) -/
+def Registry.recordedUnder (r : Registry) (d : Nat) : Option Nat := r.erc d
+
+/-- the denom a transfer (batch) recorded under contract `c` is refunded (burned) in (`GetDenomOfERC20`);
+    `none` = the refund / the burn fails with "denom not found" -/
+def Registry.paidIn (r : Registry) (c : Nat) : Option Nat := r.den c
+
 end Paloma.Bridge
